@@ -985,6 +985,9 @@ func (e *eventAllower) commonChecks(event PDU) error {
 // A membershipAllower has the information needed to authenticate a m.room.member event
 type membershipAllower struct {
 	*allowerContext
+	// A copy of the room's join rule: the restricted join check rewrites it
+	// for the event in hand and must not leak that into the shared context.
+	joinRule JoinRuleContent
 	roomVersionImpl IRoomVersion
 	// The m.room.third_party_invite content referenced by this event.
 	thirdPartyInvite ThirdPartyInviteContent
@@ -1004,6 +1007,7 @@ type membershipAllower struct {
 // from the auth events.
 func (a *allowerContext) newMembershipAllower(authEvents AuthEventProvider, event PDU) (m membershipAllower, err error) { // nolint: gocyclo
 	m.allowerContext = a
+	m.joinRule = a.joinRule
 	m.roomVersionImpl, err = GetRoomVersion(event.Version())
 	if err != nil {
 		return
